@@ -337,6 +337,7 @@ def h03_redis_stop(S, max_step=140):
     g = Fraction(2, 1000) if S.flag("graceful_period_shorter_than_actor") else Fraction(20, 1000)
     # an actor may need a moment to unwind when it is cancelled (closing a connection, rolling back)
     slow_cancel = S.flag("actor_takes_50ms_to_unwind_when_cancelled")
+    slow_redis = S.flag("redis_round_trips_take_150ms")
     S.tag("kind", KINDS[kind])
     out = {}
     runs = []
@@ -346,6 +347,8 @@ def h03_redis_stop(S, max_step=140):
         br = fr.mk_broker(srv)
         conn = Connection(br)
         r = Router()
+        if slow_redis:
+            srv.latency = lambda client: Fraction(150, 1000)
 
         @r.actor(converter=BasicConverter, retry_policy=lambda retry_number=1: real_timedelta(seconds=30))
         async def job(i: int):
@@ -383,7 +386,7 @@ def h03_redis_stop(S, max_step=140):
         loop.iter_hook = prev
         # the process may exit as soon as run() has returned: what is in flight now stays in flight
         out["in_flight_at_return"] = sorted(i for i, v in fr.redis_places(srv).items() if "processing" in place_names({i: v}, i))
-        await asyncio.sleep(Fraction(1, 2))
+        await asyncio.sleep(Fraction(1, 2) if not slow_redis else 5)
         out["places"] = fr.redis_places(srv)
         out["msgs"] = {f"m{i}": fr.redis_message(srv, __import__("repid").data._key.RoutingKey(topic="job", queue="default", id_=f"m{i}")) for i in range(n_msgs)}
 
